@@ -878,7 +878,26 @@ func (f *frame) call(x *ssa.Call, cur *State) {
 		f.staticCall(x, fn, args, binds, cur)
 		return
 	}
-	// dynamic call through a function value
+	// dynamic call through a function value: a contract by the named function type (dyn T), else opaque
+	if n := namedName(common.Value.Type()); n != "" {
+		if ct := f.vc.eng.db.Contracts["dyn "+n]; ct != nil {
+			sig := common.Signature()
+			var params []paramInfo
+			for i := 0; i < sig.Params().Len(); i++ {
+				name := sig.Params().At(i).Name()
+				if name == "" {
+					name = fmt.Sprintf("arg%d", i)
+				}
+				params = append(params, paramInfo{name, sig.Params().At(i).Type()})
+			}
+			args := make([]Sym, len(common.Args))
+			for i, a := range common.Args {
+				args[i] = f.val(a)
+			}
+			f.env[x] = f.applyContract(ct, ct.Key, params, args, sig.Results(), cur, x.Pos())
+			return
+		}
+	}
 	f.opaqueCall(x, "dynamic call "+common.Value.Name(), cur)
 }
 
